@@ -89,6 +89,7 @@ func clientReload(w *World) {
 	// the udp proxy's backend may be given by a name that does not resolve for the time being: the server accepts the
 	// registration, the client then fails to start the proxy locally. Such a proxy is not running, so it must not stay
 	// registered; it is tried again later and comes up once the name resolves.
+	healthChecked := w.KnobBool("health_checked_proxies", 40)
 	localFail := w.KnobBool("local_start_failure", 30)
 	if localFail {
 		m.policy["c"] = 0
@@ -114,6 +115,10 @@ func clientReload(w *World) {
 		p := map[string]any{"name": name, "type": typ, "localIP": "127.0.0.1", "localPort": 9400}
 		if name == "c" && localFail {
 			p["localIP"] = "backend.sim.test"
+		}
+		if healthChecked && (name == "a" || name == "f") {
+			// a health check with nothing but its type: interval, timeout and failure count are the defaults
+			p["healthCheck"] = map[string]any{"type": "tcp"}
 		}
 		switch typ {
 		case "tcp", "udp":
